@@ -24,28 +24,32 @@ W = [
   {'b': {'$all': [{'$elemMatch': {'$eq': 2}}]}}, {'b': 2}, 'F'),
  ('allmulticand', "$all over several candidates does not search the array-valued ones (TypeError when the first one is an array and another is not iterable): {'a.b': {$all: [2]}} misses {a: [{b: 1}, {b: [2, 3]}]}",
   {'a.b': {'$all': [2]}}, {'a': [{'b': 1}, {'b': [2, 3]}]}, 'T'),
- ('lazyvalidation', "a malformed part of a filter is only rejected if evaluation reaches it: {c: 1, $or: []} is accepted when c differs",
+ ('lazyvalidation', "a malformed part of a filter is only rejected if evaluation reaches it: {c: 1, $or: []} is accepted when c differs (reached by evaluation only: every key after one that already failed and every sub-filter of $and/$or/$nor after the one that decides, the names inside $not and $elemMatch, and the arguments of the operators - e.g. {'a.0': {$in: 5}} and {'a.0': {$not: {$foo: 1}}} are accepted on {a: []}, {a: {$gt: 1, $in: 5}} on {a: 0}; the operator names of a condition itself are checked whatever its key reaches, see the fixed record lazyunknownop) (Lean: Props.C01.rejects_malformed_full_fails)",
   {'c': 1, '$or': []}, {'c': 2}, 'E'),
 ]
 
 # (id, what, filter, doc, what the rules say, commit in the library, python before the repair)
 FIXED = [
  ('emptydocoperand', "equality with an empty sub-document selects documents lacking the field: {a: {}} selects {}",
-  {'a': {}}, {}, 'F', 'b16f2d5', 'T'),
+  {'a': {}}, {}, 'F', '247c965', 'T'),
  ('nullorder', "{$lte: null} / {$gte: null} do not select a missing field",
-  {'c': {'$lte': None}}, {'a': 2}, 'T', '44e20a5', 'F'),
+  {'c': {'$lte': None}}, {'a': 2}, 'T', '133fdcf', 'F'),
  ('ext:$all', "$all: [] selects everything",
-  {'a': {'$all': []}}, {'a': -1}, 'F', '76e5b95', 'T'),
+  {'a': {'$all': []}}, {'a': -1}, 'F', '37df98d', 'T'),
  ('allnull', "a null item of $all is not met by a missing field: {a: {$all: [null]}} misses {}",
-  {'a': {'$all': [None]}}, {}, 'T', 'ca40cd6', 'F'),
+  {'a': {'$all': [None]}}, {}, 'T', '42c4894', 'F'),
  ('ext:$size', "$size: 1 selects truthy scalars and one-field sub-documents",
-  {'a': {'$size': 1}}, {'a': 'ba'}, 'F', 'bc3b6eb', 'T'),
+  {'a': {'$size': 1}}, {'a': 'ba'}, 'F', '6050070', 'T'),
  ('ext:$elemMatch', "$elemMatch inherits the $all/$size deviations for its element conditions",
-  {'c': {'$elemMatch': {'$size': 1}}}, {'c': ['b', 2]}, 'F', 'bc3b6eb', 'T'),
+  {'c': {'$elemMatch': {'$size': 1}}}, {'c': ['b', 2]}, 'F', '6050070', 'T'),
  ('deadend', "a path that dead-ends in a scalar yields no candidate: {'a.b': null} misses {a: 5}",
-  {'a.b': None}, {'a': 5}, 'T', '3b117a4', 'F'),
+  {'a.b': None}, {'a': 5}, 'T', '69ced08', 'F'),
  ('toplevelnot', "a top-level $not is accepted and always true, so that an operator query of $elemMatch made of $not selects every element: {a: {$elemMatch: {$not: {$ne: 5}}}} selects {a: [1]}",
-  {'a': {'$elemMatch': {'$not': {'$ne': 5}}}}, {'a': [1]}, 'F', 'eaf75fc', 'T'),
+  {'a': {'$elemMatch': {'$not': {'$ne': 5}}}}, {'a': [1]}, 'F', 'b0b21d1', 'T'),
+ ('emptykey', "the empty field name is read as the document itself instead of a field name: {'': 1} misses {'': 1} (and 'a.' is read as 'a')",
+  {'': 1}, {'': 1}, 'T', 'a1a344b', 'F'),
+ ('lazyunknownop', "an unknown operator in a condition is accepted when the key reaches no value: {'a.0': {$foo: 1}} is accepted (and selects nothing) on {a: []}",
+  {'a.0': {'$foo': 1}}, {'a': []}, 'E', '6c55e75', 'F'),
 ]
 n = lambda x: '?' if x.startswith('!?') else 'E' if x.startswith('!') else x
 out = []
